@@ -1,4 +1,6 @@
 import GoatProofs.Lemmas.C16PtDec
+import GoatProofs.Lemmas.C16PtClosure
+import Mathlib.Algebra.Group.MinimalAxioms
 import GoatProofs.Group
 /-
 C16 (points part) — edwards448 points implement the Ed448-Goldilocks group.
@@ -194,5 +196,72 @@ theorem doubleScalarMult_correct (hp : Nat.Prime q) {A : Model.Ed448Pt.Point} {g
   unfold Model.Ed448Pt.doubleScalarBaseMult guard1
   rw [if_pos (initialized_of_prep hp hA (EdwardsGroup.on g)), ea, eb, basepointNAFTblT_get]
   exact ⟨r, er, hr⟩
+
+/-! ## what `EdwardsGroup` amounts to: associativity only
+
+Closure (`add_onCurve`), commutativity, the neutral element and inverses of the textbook law are
+proved; the structure `EdwardsGroup` can be BUILT from the single statement `EdwardsAssoc`. -/
+
+/-- the one unproved statement behind `EdwardsGroup`: associativity of the textbook addition law on
+    curve points -/
+def EdwardsAssoc : Prop := ∀ a b c : AffinePoint, OnCurve a → OnCurve b → OnCurve c →
+  Spec.Edwards448.add (Spec.Edwards448.add a b) c = Spec.Edwards448.add a (Spec.Edwards448.add b c)
+
+theorem apoint_ext {a b : AffinePoint} (hx : a.x = b.x) (hy : a.y = b.y) : a = b := by
+  cases a; cases b; simp_all
+
+theorem spec_add_comm (a b : AffinePoint) : Spec.Edwards448.add a b = Spec.Edwards448.add b a := by
+  unfold Spec.Edwards448.add
+  apply apoint_ext
+  · simp only
+    rw [show a.x * b.y + a.y * b.x = b.x * a.y + b.y * a.x by ring,
+      show d * a.x * b.x * a.y * b.y = d * b.x * a.x * b.y * a.y by ring]
+  · simp only
+    rw [show a.y * b.y - a.x * b.x = b.y * a.y - b.x * a.x by ring,
+      show d * a.x * b.x * a.y * b.y = d * b.x * a.x * b.y * a.y by ring]
+
+theorem spec_zero_add (hp : Nat.Prime q) {a : AffinePoint} (ha : OnCurve a) :
+    Spec.Edwards448.add Spec.Edwards448.zero a = a := by
+  have : Fact (Nat.Prime q) := ⟨hp⟩
+  have hon := add_onCurve hp zero_onCurve ha
+  apply apoint_ext
+  · apply canon_eq_of_cast hon.1 ha.1
+    rw [add_x_F hp]; simp [Spec.Edwards448.zero]
+  · apply canon_eq_of_cast hon.2.1 ha.2.1
+    rw [add_y_F hp]; simp [Spec.Edwards448.zero]
+
+theorem spec_neg_add (hp : Nat.Prime q) {a : AffinePoint} (ha : OnCurve a) :
+    Spec.Edwards448.add (Spec.Edwards448.neg a) a = Spec.Edwards448.zero := by
+  have : Fact (Nat.Prime q) := ⟨hp⟩
+  have hn := neg_onCurve ha
+  have hon := add_onCurve hp hn ha
+  have c1 := onCurve_F ha
+  obtain ⟨dp, dm⟩ := edwards_complete ((d : ℤ) : F) (d_nonsquare hp) two_ne_zero_F (onCurve_F hn) c1
+  have hnx : (((Spec.Edwards448.neg a).x : ℤ) : F) = -(a.x : F) := by
+    unfold Spec.Edwards448.neg; simp only; rw [cast_emod_p]; push_cast; rfl
+  have hny : (Spec.Edwards448.neg a).y = a.y := rfl
+  apply apoint_ext
+  · apply canon_eq_of_cast hon.1 zero_onCurve.1
+    rw [add_x_F hp, hnx, hny]; simp [Spec.Edwards448.zero]; left; ring
+  · apply canon_eq_of_cast hon.2.1 zero_onCurve.2.1
+    rw [hnx, hny] at dm
+    rw [add_y_F hp, hnx, hny]
+    have : ((a.y : F) * a.y - -(a.x : F) * a.x) = 1 - ((d : ℤ) : F) * -(a.x : F) * a.x * a.y * a.y := by
+      linear_combination c1
+    rw [this, mul_inv_cancel₀ dm]; simp [Spec.Edwards448.zero]
+
+/-- `EdwardsGroup` built from associativity alone (p prime) -/
+def EdwardsGroup.ofAssoc (hp : Nat.Prime q) (hassoc : EdwardsAssoc) : EdwardsGroup :=
+  letI iadd : Add CurvePoint := ⟨fun a b => ⟨Spec.Edwards448.add a.1 b.1, add_onCurve hp a.2 b.2⟩⟩
+  letI izero : Zero CurvePoint := ⟨⟨Spec.Edwards448.zero, zero_onCurve⟩⟩
+  letI ineg : Neg CurvePoint := ⟨fun a => ⟨Spec.Edwards448.neg a.1, neg_onCurve a.2⟩⟩
+  letI grp : AddGroup CurvePoint := AddGroup.ofLeftAxioms
+    (fun a b c => Subtype.ext (hassoc a.1 b.1 c.1 a.2 b.2 c.2))
+    (fun a => Subtype.ext (spec_zero_add hp a.2))
+    (fun a => Subtype.ext (spec_neg_add hp a.2))
+  { inst := { grp with add_comm := fun a b => Subtype.ext (spec_add_comm a.1 b.1) }
+    add_val := fun _ _ => rfl
+    zero_val := rfl
+    neg_val := fun _ => rfl }
 
 end C16Pt
